@@ -65,6 +65,9 @@ theorem init_boundary : Boundary init := by
   refine ⟨⟨rfl, rfl, ?_⟩, rfl⟩
   simp [NodupPk, init]
 
+theorem init_selfInv (me : Nat) : SelfInv me [] init.reg :=
+  ⟨by simp [init], by simp [init], by simp [init], by simp [init, hasOp], by simp [init, hasOp]⟩
+
 theorem commit_wal (n : Node) (m : Nat) : (runSteps n [.putMarker m, .commit]).wal = n.wal := by
   simp [runSteps, applyStep, stepWal]
 
